@@ -501,7 +501,7 @@ Section Proofs.
     (* hand-over *)
     set (ch1 := apply_child_resps ch (answers (tc_reqs ch))) in *.
     set (p2 := mkProxy (p_id p') (p_signer p')
-                 (aput c (mkChild (tc_used ch1) (tc_reqs ch1) (adel k (tc_resps ch1))) (p_children p')) (p_open p')).
+                 (aput c (mkChild (tc_id ch1) (tc_used ch1) (tc_reqs ch1) (adel k (tc_resps ch1))) (p_children p')) (p_open p')).
     assert (Hcall : child_call p' c k r = (ODelivered (answer r), p2)).
     { unfold TaProxy.child_call. rewrite Hc', Hresp, req_matches_answer.
       unfold TaProxy.p_step, TaProxy.p_process. rewrite Hc', Hresp. cbn. rewrite Hc'. reflexivity. }
@@ -580,7 +580,7 @@ Section Proofs.
 
   (** ** Frame: child traffic does not touch the signer association or the open request *)
   Lemma p_step_child_frame p c p' :
-    (match c with PAddChild _ | PAddReq _ _ _ | PGive _ _ => True | _ => False end) ->
+    (match c with PAddChild _ _ | PAddReq _ _ _ | PGive _ _ => True | _ => False end) ->
     p_step p c = POk p' -> p_id p' = p_id p /\ p_signer p' = p_signer p /\ p_open p' = p_open p.
   Proof.
     intros Hc H. destruct c; try contradiction; unfold TaProxy.p_step, TaProxy.p_process in H.
@@ -604,12 +604,104 @@ Section Proofs.
       destruct (p_step p (PAddReq c k r)) eqn:E; cbn [snd]; auto. eapply p_step_child_frame; eauto. exact I.
   Qed.
 
-  Lemma p_after_addchild_frame p c :
-    let p' := p_after p (PAddChild c) in
+  Lemma p_after_addchild_frame p c i :
+    let p' := p_after p (PAddChild c i) in
     p_id p' = p_id p /\ p_signer p' = p_signer p /\ p_open p' = p_open p.
   Proof.
-    unfold TaProxy.p_after. destruct (p_step p (PAddChild c)) eqn:E; cbn; auto.
+    unfold TaProxy.p_after. destruct (p_step p (PAddChild c i)) eqn:E; cbn; auto.
     eapply p_step_child_frame; eauto. exact I.
+  Qed.
+
+  (** ** A known handle cannot be added again (process_add_child, taproxy.rs:427-444), whatever the ID
+         certificate: the child record - used keys, queued requests, responses waiting for the child - is
+         never replaced by a fresh one. *)
+  Lemma add_child_accepted_iff p c i :
+    (exists p', p_step p (PAddChild c i) = POk p') <-> aget c (p_children p) = None.
+  Proof.
+    unfold TaProxy.p_step, TaProxy.p_process. destruct (aget c (p_children p)); split; intros H.
+    - destruct H as [p' H]. discriminate.
+    - discriminate.
+    - reflexivity.
+    - cbn. eauto.
+  Qed.
+
+  Lemma add_known_child_refused p c i ch :
+    aget c (p_children p) = Some ch ->
+    p_step p (PAddChild c i) = PErr EDupChild /\ p_after p (PAddChild c i) = p.
+  Proof.
+    intros H. unfold TaProxy.p_after, TaProxy.p_step, TaProxy.p_process. rewrite H. auto.
+  Qed.
+
+  Lemma add_new_child_effect p c i p' :
+    p_step p (PAddChild c i) = POk p' ->
+    aget c (p_children p) = None /\ aget c (p_children p') = Some (new_child i)
+    /\ forall c', c' <> c -> aget c' (p_children p') = aget c' (p_children p).
+  Proof.
+    unfold TaProxy.p_step, TaProxy.p_process. destruct (aget c (p_children p)) eqn:E; [discriminate|].
+    cbn. intros H. inv H. cbn [p_children]. split; [reflexivity|]. split; [apply aget_aput_same|].
+    intros c' Hne. now apply aget_aput_other.
+  Qed.
+
+  (** A response that waits for a child leaves the proxy only by the hand-over to that child (or is replaced
+      by the answer of a later accepted exchange); the keys a child uses are not forgotten by child traffic
+      or signer (re-)association. *)
+  Lemma pending_response_kept p cmd p' c k a :
+    p_step p cmd = POk p' -> open_resp p c k = Some a ->
+    open_resp p' c k = Some a \/ cmd = PGive c k \/ (exists m, cmd = PResponse m).
+  Proof.
+    intros H Ho. destruct cmd as [si|si|n|m|c0 i|c0 k0 r|c0 k0]; unfold TaProxy.p_step, TaProxy.p_process in H.
+    - destruct (p_signer p); [discriminate|]. cbn in H. inv H. now left.
+    - destruct (p_signer p) as [s|]; [|discriminate]. destruct (si_ta s =? si_ta si); [|discriminate]. cbn in H. inv H. now left.
+    - destruct (p_open p); [discriminate|]. cbn in H. inv H. now left.
+    - right. right. eauto.
+    - destruct (aget c0 (p_children p)) eqn:E; [discriminate|]. cbn in H. inv H. left.
+      unfold open_resp in *. cbn [p_children]. destruct (N.eq_dec c c0) as [->|Hne].
+      + rewrite E in Ho. discriminate.
+      + now rewrite aget_aput_other.
+    - destruct (aget c0 (p_children p)) as [ch|] eqn:E; [|discriminate].
+      destruct (negb (rq_wf r)); [discriminate|].
+      assert (Hp : p' = mkProxy (p_id p) (p_signer p)
+                 (aput c0 (mkChild (tc_id ch) (tc_used ch) (aput k0 r (tc_reqs ch)) (tc_resps ch)) (p_children p)) (p_open p)).
+      { destruct (rq_kind r); [|destruct (revoke_admitted (aget k0 (tc_used ch))); [|discriminate]]; cbn in H; rewrite E in H; now inv H. }
+      subst p'. left. unfold open_resp in *. cbn [p_children]. destruct (N.eq_dec c c0) as [->|Hne].
+      + rewrite aget_aput_same. rewrite E in Ho. exact Ho.
+      + now rewrite aget_aput_other.
+    - destruct (aget c0 (p_children p)) as [ch|] eqn:E; [|discriminate].
+      destruct (aget k0 (tc_resps ch)); [|discriminate]. cbn in H. rewrite E in H. inv H.
+      unfold open_resp in *. cbn [p_children]. destruct (N.eq_dec c c0) as [->|Hne].
+      + destruct (N.eq_dec k k0) as [->|Hk]; [now right; left|]. left.
+        rewrite aget_aput_same. cbn [tc_resps]. rewrite E in Ho. now rewrite aget_adel_other.
+      + left. now rewrite aget_aput_other.
+  Qed.
+
+  Definition used_key (p : proxy) (c k : N) : option ustate :=
+    match aget c (p_children p) with Some ch => aget k (tc_used ch) | None => None end.
+
+  Lemma used_keys_kept p cmd p' c k u :
+    p_step p cmd = POk p' -> (forall m, cmd <> PResponse m) -> used_key p c k = Some u -> used_key p' c k = Some u.
+  Proof.
+    intros H Hn Ho. destruct cmd as [si|si|n|m|c0 i|c0 k0 r|c0 k0]; unfold TaProxy.p_step, TaProxy.p_process in H.
+    - destruct (p_signer p); [discriminate|]. cbn in H. now inv H.
+    - destruct (p_signer p) as [s|]; [|discriminate]. destruct (si_ta s =? si_ta si); [|discriminate]. cbn in H. now inv H.
+    - destruct (p_open p); [discriminate|]. cbn in H. now inv H.
+    - exfalso. now apply (Hn m).
+    - destruct (aget c0 (p_children p)) eqn:E; [discriminate|]. cbn in H. inv H.
+      unfold used_key in *. cbn [p_children]. destruct (N.eq_dec c c0) as [->|Hne].
+      + rewrite E in Ho. discriminate.
+      + now rewrite aget_aput_other.
+    - destruct (aget c0 (p_children p)) as [ch|] eqn:E; [|discriminate].
+      destruct (negb (rq_wf r)); [discriminate|].
+      assert (Hp : p' = mkProxy (p_id p) (p_signer p)
+                 (aput c0 (mkChild (tc_id ch) (tc_used ch) (aput k0 r (tc_reqs ch)) (tc_resps ch)) (p_children p)) (p_open p)).
+      { destruct (rq_kind r); [|destruct (revoke_admitted (aget k0 (tc_used ch))); [|discriminate]]; cbn in H; rewrite E in H; now inv H. }
+      subst p'. unfold used_key in *. cbn [p_children]. destruct (N.eq_dec c c0) as [->|Hne].
+      + rewrite aget_aput_same. rewrite E in Ho. exact Ho.
+      + now rewrite aget_aput_other.
+    - destruct (aget c0 (p_children p)) as [ch|] eqn:E; [|discriminate].
+      destruct (aget k0 (tc_resps ch)); [|discriminate]. cbn in H. rewrite E in H. inv H.
+      unfold used_key in *. cbn [p_children]. destruct (N.eq_dec c c0) as [->|Hne].
+      + rewrite aget_aput_same. cbn [tc_used]. rewrite E in Ho. exact Ho.
+      + now rewrite aget_aput_other.
   Qed.
 
   (** ** The pair under an arbitrary environment: invariant *)
@@ -737,7 +829,7 @@ Section Proofs.
       cbn [y_p y_s]. rewrite (pnum_frame _ _ F2).
       split; [now apply inv_frame|]. repeat split; try lia; intros; congruence.
     - (* YAddChild *)
-      destruct (p_after_addchild_frame (y_p y) c) as [F1 [F2 F3]].
+      destruct (p_after_addchild_frame (y_p y) c id) as [F1 [F2 F3]].
       cbn [y_p y_s]. rewrite (pnum_frame _ _ F2).
       split; [now apply inv_frame|]. repeat split; try lia; intros; congruence.
   Qed.
@@ -863,7 +955,7 @@ Section Completes.
   Definition rq_issue : creq := mkReq KIssue 1 true.
   Definition rq_revoke : creq := mkReq KRevoke 0 true.
   Definition desync_ops : list sysop :=
-    [ YAddChild 10; YChild 10 100 rq_issue; YMake 1; YGet;
+    [ YAddChild 10 7; YChild 10 100 rq_issue; YMake 1; YGet;
       YSign (mkMsg 1 1 true [(10, [(100, rq_issue)])]) None;
       YRespond (mkMsg 1 2 true (mkResp (mkObjs 2 [100]) [(10, [(100, RIssued 1)])]));
       YChild 10 100 rq_issue;                                  (* key 100 certified and handed over *)
@@ -981,7 +1073,7 @@ Section Completes.
     - unfold p_step, p_process in H. destruct (aget c (p_children p)) as [ch|] eqn:Ec; [|discriminate].
       destruct (rq_wf r) eqn:Ewf; cbn [negb] in H; [|discriminate].
       assert (Hp' : p' = mkProxy (p_id p) (p_signer p)
-                (aput c (mkChild (tc_used ch) (aput k r (tc_reqs ch)) (tc_resps ch)) (p_children p)) (p_open p)).
+                (aput c (mkChild (tc_id ch) (tc_used ch) (aput k r (tc_reqs ch)) (tc_resps ch)) (p_children p)) (p_open p)).
       { destruct (rq_kind r); [|destruct (revoke_admitted (aget k (tc_used ch))); [|discriminate]]; cbn in H; rewrite Ec in H; now inv H. }
       subst p'. intros c' k' r'. unfold open_req. cbn [p_children].
       destruct (N.eq_dec c' c) as [->|Hne].
@@ -1320,7 +1412,7 @@ Section Disciplined.
   Lemma p_step_addreq p c k r p' :
     p_step validate p (PAddReq c k r) = POk p' ->
     exists ch, aget c (p_children p) = Some ch
-      /\ p' = mkProxy (p_id p) (p_signer p) (aput c (mkChild (tc_used ch) (aput k r (tc_reqs ch)) (tc_resps ch)) (p_children p)) (p_open p)
+      /\ p' = mkProxy (p_id p) (p_signer p) (aput c (mkChild (tc_id ch) (tc_used ch) (aput k r (tc_reqs ch)) (tc_resps ch)) (p_children p)) (p_open p)
       /\ (rq_kind r = KRevoke -> aget k (tc_used ch) = Some InUse).
   Proof.
     unfold p_step, p_process. destruct (aget c (p_children p)) as [ch|] eqn:Ec; [|discriminate].
@@ -1334,7 +1426,7 @@ Section Disciplined.
   Lemma p_step_give p c k p' :
     p_step validate p (PGive c k) = POk p' ->
     exists ch, aget c (p_children p) = Some ch
-      /\ p' = mkProxy (p_id p) (p_signer p) (aput c (mkChild (tc_used ch) (tc_reqs ch) (adel k (tc_resps ch))) (p_children p)) (p_open p).
+      /\ p' = mkProxy (p_id p) (p_signer p) (aput c (mkChild (tc_id ch) (tc_used ch) (tc_reqs ch) (adel k (tc_resps ch))) (p_children p)) (p_open p).
   Proof.
     unfold p_step, p_process. destruct (aget c (p_children p)) as [ch|] eqn:Ec; [|discriminate].
     destruct (aget k (tc_resps ch)); [|discriminate]. cbn. rewrite Ec. intros [= <-]. eauto.
@@ -1367,12 +1459,12 @@ Section Disciplined.
         * rewrite aget_aput_other in Hr by exact Hne. eapply C3; eauto.
   Qed.
 
-  Lemma hinv_addchild y c : HInv y -> HInv (sys_step validate y (YAddChild c)).
+  Lemma hinv_addchild y c i : HInv y -> HInv (sys_step validate y (YAddChild c i)).
   Proof.
     intros HI. cbn [sys_step]. unfold p_after.
-    destruct (p_step validate (y_p y) (PAddChild c)) as [p'| |] eqn:Est; try now apply hinv_self.
+    destruct (p_step validate (y_p y) (PAddChild c i)) as [p'| |] eqn:Est; try now apply hinv_self.
     assert (Hp' : aget c (p_children (y_p y)) = None
-                  /\ p' = mkProxy (p_id (y_p y)) (p_signer (y_p y)) (aput c empty_child (p_children (y_p y))) (p_open (y_p y))).
+                  /\ p' = mkProxy (p_id (y_p y)) (p_signer (y_p y)) (aput c (new_child i) (p_children (y_p y))) (p_open (y_p y))).
     { unfold p_step, p_process in Est. destruct (aget c (p_children (y_p y))); [discriminate|]. cbn in Est. inv Est. auto. }
     destruct Hp' as [Hn ->].
     eapply hinv_children_step; eauto. cbn [p_children].
@@ -1517,7 +1609,7 @@ End Disciplined.
 (** * Non-vacuity and witnesses (concrete states, intended validation function) *)
 Definition ex_proxy : proxy :=
   mkProxy 1 (Some (mkSI 2 9 (mkObjs 5 [100])))
-          [(10, mkChild [(100, InUse)] [(101, mkReq KIssue 1 true)] []); (11, mkChild [] [(200, mkReq KIssue 1 true)] [])]
+          [(10, mkChild 0 [(100, InUse)] [(101, mkReq KIssue 1 true)] []); (11, mkChild 0 [] [(200, mkReq KIssue 1 true)] [])]
           (Some 7).
 Definition ex_signer : signer := mkSigner 2 1 9 (mkObjs 5 [100]).
 Definition ex_req : msg request := mkMsg 7 1 true [(10, [(101, mkReq KIssue 1 true)]); (11, [(200, mkReq KIssue 1 true)])].
@@ -1610,7 +1702,28 @@ Qed.
     Revoked and the signer holds no certificate for it. The repaired rule refuses a second revocation;
     the pinned rule admitted it, and once stored the request fails at the signer for ever while the nonce
     stays open. *)
-Definition pinned_proxy : proxy := mkProxy 1 (Some (mkSI 2 9 (mkObjs 3 []))) [(10, mkChild [(100, Revoked)] [] [])] None.
+(** Witnesses for add_known_child_refused: a child with a used key and a response that waits for it. Added
+    again - with the ID certificate it has (7) or another one (8) - the command is refused and nothing
+    changes. Applying the event all the same (what a guard that looked at the certificate would do) would
+    lose the response and the key: the guard of process_add_child is what keeps them. *)
+Definition waiting_proxy : proxy :=
+  mkProxy 1 (Some (mkSI 2 9 (mkObjs 3 [100]))) [(10, mkChild 7 [(100, InUse)] [] [(100, RIssued 1)])] None.
+Example add_known_child_refused_nonvacuous :
+  aget 10 (p_children waiting_proxy) = Some (mkChild 7 [(100, InUse)] [] [(100, RIssued 1)])
+  /\ p_step validate_std waiting_proxy (PAddChild 10 7) = PErr EDupChild
+  /\ p_step validate_std waiting_proxy (PAddChild 10 8) = PErr EDupChild
+  /\ p_after validate_std waiting_proxy (PAddChild 10 8) = waiting_proxy.
+Proof. repeat split. Qed.
+Example child_added_event_would_forget :
+  exists p', p_apply waiting_proxy (EvChildAdded 10 8) = Some p'
+             /\ open_resp waiting_proxy 10 100 = Some (RIssued 1) /\ open_resp p' 10 100 = None
+             /\ used_key waiting_proxy 10 100 = Some InUse /\ used_key p' 10 100 = None.
+Proof. eexists. repeat split. Qed.
+Example pending_response_kept_nonvacuous :
+  exists p', p_step validate_std waiting_proxy (PMake 5) = POk p' /\ open_resp waiting_proxy 10 100 = Some (RIssued 1).
+Proof. eexists. split; reflexivity. Qed.
+
+Definition pinned_proxy : proxy := mkProxy 1 (Some (mkSI 2 9 (mkObjs 3 []))) [(10, mkChild 0 [(100, Revoked)] [] [])] None.
 Definition pinned_signer : signer := mkSigner 2 1 9 (mkObjs 3 []).
 Example second_revocation_wedged_pinned :
   revoke_admitted_pinned (aget 100 [(100, Revoked)]) = true
@@ -1626,7 +1739,7 @@ Proof. vm_compute. repeat split. do 3 eexists. repeat split. Qed.
 (** Disciplined operation, non-vacuous: a key is certified, revoked, the revocation is asked for a second
     time (refused at the proxy), and the next request is open and completes. *)
 Definition disc_ops : list hop :=
-  [ HAddChild 10; HChild 10 100 rq_issue; HMake 1; HExchange None; HChild 10 100 rq_issue;
+  [ HAddChild 10 7; HChild 10 100 rq_issue; HMake 1; HExchange None; HChild 10 100 rq_issue;
     HChild 10 100 rq_revoke; HMake 2; HExchange None; HChild 10 100 rq_revoke;
     HChild 10 100 rq_revoke;                       (* second revocation: refused, nothing stored *)
     HChild 10 101 rq_issue; HMake 3 ].
